@@ -104,6 +104,12 @@ CHECKS = {
         note="libcst needs ~0.3 s per application: quick uses a 5-toggle product plus single-toggle sources, thorough an 8-toggle product and all subsets.",
         ref="DESIGN.md section 4 C15",
     ),
+    "C16": dict(
+        technique="explicit enumeration of import placement x import form x runtime use x stub-import kind x overwrite with confinement on; results inspected (import inventory) and EXECUTED with the workload re-run (bounded exhaustive, E1)",
+        text="The complete product of six import placements, six import forms, runtime use yes/no, eight kinds of imports the stub may add (new user module, typing name, already-imported name, TypedDict base of a generated class, another name of the same module, nothing new, a user module named like typing, a same-short-name class of another module) and overwrite on/off is applied with --pep_563 semantics; the __future__ import must come first, new annotation-only imports must be confined, every original import must stay in place with its alias, and the resulting module is executed and must reproduce the workload's result.",
+        note="Trusts ast for the import inventory; the workload's observable result is the module-level RESULT value.",
+        ref="DESIGN.md section 4 C16",
+    ),
 }
 
 NOT_YET = {}
